@@ -168,11 +168,15 @@ class LinInterp(OrderInterp):
 
     # ---------------------------------------------------------------- names / calls
     def unknown_name(self, ident: str, node: ast.AST) -> Any:
-        if ident == "abs":
-            return ("builtin", "abs")
+        if ident in ("abs", "reversed"):
+            return ("builtin", ident)
         return super().unknown_name(ident, node)
 
     def builtin(self, name: str, pos: list[Any], kw: dict[str, Any], node: ast.AST) -> Any:
+        if name == "sorted" and set(kw) - {"reverse"}:
+            raise AnalysisError("sorted() with a key function: the proposals' own order is not used")
+        if name == "reversed" and len(pos) == 1 and not kw:
+            return list(reversed(list(self.iterate(pos[0], node))))
         if name == "abs" and len(pos) == 1 and not kw:
             lv = self._lin(pos[0])
             if lv is not None:
@@ -203,32 +207,69 @@ class LinInterp(OrderInterp):
         return super().apply(fn, pos, kw, node)
 
 
+class KeySet(set):  # type: ignore[type-arg]
+    """A Python set of proposals as the analysed code sees it: membership is by the proposals'
+    equality key, and - as with a real set - add() of an equal element keeps the *old* object."""
+
+    def __init__(self) -> None:
+        super().__init__()
+        self.objs: dict[Any, Any] = {}
+
+
 class StoreInterp(LinInterp):
-    """LinInterp for the bookkeeping around the sweep: buckets are real sets of proposal keys
-    ((priority, source_id), the equality of Proposal), and calls of the anchored sweep function are
-    not entered but recorded together with their arguments."""
+    """LinInterp for the bookkeeping around the sweep: buckets are sets keyed by the equality of
+    Proposal ((priority, source_id)) that remember which object they hold, and calls of the
+    anchored sweep function are not entered but recorded together with their arguments."""
 
     stub = "_calc_target_power"
 
     def __init__(self, prog: Program, module: Any) -> None:
         super().__init__(prog, module)
         self.stub_calls: list[tuple[list[Any], dict[str, Any]]] = []
+        self.stub_result = Atom("NEW_TARGET")
 
     def reset(self) -> None:
         super().reset()
         self.stub_calls = []
+        self.stub_result = Atom("NEW_TARGET")
 
     def key(self, k: Any) -> Any:
         if isinstance(k, Obj) and k.cls == "Proposal" and {"priority", "source_id"} <= set(k.fields):
             return ("Proposal", k.fields["priority"], k.fields["source_id"])
         return super().key(k)
 
+    def keyset(self, items: Iterable[Any]) -> KeySet:
+        out = KeySet()
+        for x in items:
+            self._set_op(out, "add", x, None)
+        return out
+
+    def _set_op(self, s: Any, op: str, item: Any, node: ast.AST | None) -> None:
+        k = self.key(item)
+        objs = s.objs if isinstance(s, KeySet) else {}
+        if op == "add":
+            if k not in s:  # an equal element is already there: set.add keeps the old object
+                s.add(k)
+                objs[k] = item
+        elif op == "discard":
+            s.discard(k)
+            objs.pop(k, None)
+        elif op == "remove":
+            if k not in s:
+                raise _Raise("KeyError", node)
+            s.remove(k)
+            objs.pop(k, None)
+        else:
+            raise AnalysisError(f"set.{op} not interpretable")
+
     def builtin(self, name: str, pos: list[Any], kw: dict[str, Any], node: ast.AST) -> Any:
         if name == "set" and not kw:
-            return {self.key(x) for x in self.iterate(pos[0], node)} if pos else set()
+            return self.keyset(self.iterate(pos[0], node) if pos else [])
         return super().builtin(name, pos, kw, node)
 
     def iterate(self, v: Any, node: ast.AST) -> Any:
+        if isinstance(v, KeySet):
+            return [v.objs[k] for k in sorted(v, key=repr)]
         if isinstance(v, (set, frozenset)):
             return sorted(v, key=repr)
         return super().iterate(v, node)
@@ -237,12 +278,11 @@ class StoreInterp(LinInterp):
         target = fn[1] if isinstance(fn, tuple) and fn and fn[0] == "bound" else fn
         if isinstance(target, FuncInfo) and target.name == self.stub:
             self.stub_calls.append((list(pos), dict(kw)))
-            return Atom("NEW_TARGET")
+            return self.stub_result
         if isinstance(fn, tuple) and fn and fn[0] == "setmethod":
-            try:
-                getattr(fn[1], fn[2])(self.key(pos[0]))
-            except KeyError:
-                raise _Raise("KeyError", node) from None
+            if len(pos) != 1 or kw:
+                raise AnalysisError(f"set.{fn[2]} call not interpretable")
+            self._set_op(fn[1], fn[2], pos[0], node)
             return None
         return super().apply(fn, pos, kw, node)
 
